@@ -717,6 +717,8 @@ func (env *Env) call(x *ECall) SVal {
 			return b(app(">=", app("rid", app("iptr", v.T)), a0))
 		}
 		fail("fresh of %s", v.Sort)
+	case "outok":
+		return b(env.cur.heap(outOKHeap, "Bool"))
 	case "outlen":
 		return SVal{T: env.cur.heap(outHeap, "Int"), Typ: tInt, Sort: "Int"}
 	case "runes":
